@@ -133,6 +133,8 @@ def contract_lines_of_model(beh, c):
            {"k": "logger", "lg": "L0", "sinks": ["S0"], "lvl": 0, "sys": True, "fresh": True}]
     for h in beh:
         if h["k"] != "step":
+            if h["k"] == "write":
+                h = dict(h, intact=True, fmt=True, nnamed=0)
             out.append(h)
     return out
 
